@@ -144,6 +144,29 @@ theorem setslice_enforces {s : Seq} (h : Reachable s) (a b c : Option Int) (xs :
   obtain ⟨s', h1, h2, _, _⟩ := setSlice_accepts h.wf a b c xs sel items' hr hsel hset
   exact ⟨s', h1, h2⟩
 
+/-- **Extended-slice assignment is all or nothing**: on a reachable sequence `seq[a:b:c] = xs` with a step other
+than 1 and conforming items is accepted iff `xs` has as many items as the slice has positions (ValueError and no
+change otherwise); the sequence keeps its length.  (The model's defensive branch "walk did not use up its values"
+is dead.) -/
+theorem setslice_extended {s : Seq} (h : Reachable s) (a b c : Option Int) (xs : List Item) (asc : List Nat) (rev : Bool)
+    (hsel : resolveSlice s.items.length a b c = .ok (.ext asc rev)) (hr : ∀ x ∈ xs, relOk s.isRoot s.isSr x) :
+    (xs.length = asc.length → ∃ s', setSlice s a b c xs = (s', none) ∧ s'.items.length = s.items.length) ∧
+    (xs.length ≠ asc.length → setSlice s a b c xs = (s, some .value)) := by
+  constructor
+  · intro hlen
+    obtain ⟨l', hl'⟩ := setSel_ext_ok hsel hlen
+    obtain ⟨s', h1, h2, _, _⟩ := setSlice_accepts h.wf a b c xs _ l' hr hsel hl'
+    refine ⟨s', h1, ?_⟩
+    have p1 := (setSel_perm s.items xs _ l' hl').length_eq
+    have p2 := (getSel_delSel_perm s.items (.ext asc rev) (resolveSlice_plain hsel)).length_eq
+    rw [h2, p1, p2]
+    simp only [List.length_append, getSel_ext_length hsel]
+    omega
+  · intro hlen
+    unfold setSlice
+    simp only [checkAll_ok.mpr (fun x hx => (setitemCheck_ok_iff h.wf.flags x).mpr (hr x hx)), hsel,
+      setSel_ext_mismatch hlen]
+
 /-- **Deletion never meets a stale index**: on a reachable sequence `del seq[i]` with a valid index and
 `del seq[slice]` with a valid slice succeed (the bucket look-up cannot raise) and delete exactly those
 positions. -/
